@@ -27,6 +27,7 @@ pub enum Op {
     Compare(usize, usize),
     RelRep(usize),
     RelPerms(usize),
+    NewLazy(usize, usize, usize), // dst <- FreeWord::new(lazy iterator substituting b^+-1 for the letters of a)
 }
 
 impl Op {
@@ -44,6 +45,7 @@ impl Op {
             Op::Compare(a, b) => json!({"op":"compare","a":a,"b":b}),
             Op::RelRep(a) => json!({"op":"relator_representative","a":a}),
             Op::RelPerms(a) => json!({"op":"relator_permutations","a":a}),
+            Op::NewLazy(d, a, b) => json!({"op":"new_from_lazy_substitution","dst":d,"a":a,"b":b}),
         }
     }
     pub fn from_json(v: &Value) -> Option<Op> {
@@ -63,6 +65,7 @@ impl Op {
             "compare" => Op::Compare(u("a")?, u("b")?),
             "relator_representative" => Op::RelRep(u("a")?),
             "relator_permutations" => Op::RelPerms(u("a")?),
+            "new_from_lazy_substitution" => Op::NewLazy(u("dst")?, u("a")?, u("b")?),
             _ => return None,
         })
     }
@@ -101,6 +104,7 @@ pub fn run_history(ctx: &mut Ctx, ops: &[Op]) -> (u64, bool) {
             Op::Mul(_, a, b, _) | Op::MulAssign(a, b) => model[*a].len() + model[*b].len(),
             Op::Power(_, a, k) => model[*a].len() * k.unsigned_abs() as usize,
             Op::Commutator(_, a, b) => 2 * (model[*a].len() + model[*b].len()),
+            Op::NewLazy(_, a, b) => model[*a].len() * model[*b].len(),
             _ => 0,
         };
         if raw_len > MAX_LEN {
@@ -171,6 +175,35 @@ pub fn run_history(ctx: &mut Ctx, ops: &[Op]) -> (u64, bool) {
                 observe(|| {
                     x *= &y;
                     Some((*a, x))
+                })
+            }
+            Op::NewLazy(d, a, b) => {
+                // construction from a LAZY letter sequence whose next() itself performs free-word operations
+                // (letter-by-letter substitution inside flat_map): construction must not depend on state shared
+                // between calls
+                api = "FreeWord::new (lazy iterator performing free-word operations)";
+                let mut raw: Word = vec![];
+                for &x in &model[*a] {
+                    if x > 0 {
+                        raw.extend(model[*b].iter().cloned());
+                    } else {
+                        raw.extend(inverse(&model[*b]));
+                    }
+                }
+                let red = reduce(&raw);
+                if red.len() < raw.len() {
+                    cancelled = true;
+                }
+                expect_dst = Some((*d, red));
+                let (x, y) = (lib[*a].clone(), lib[*b].clone());
+                observe(|| {
+                    Some((
+                        *d,
+                        FreeWord::new(x.iter().flat_map(|&l| {
+                            let img = if l > 0 { y.clone() } else { y.inverse() };
+                            img.iter().cloned().collect::<Vec<isize>>()
+                        })),
+                    ))
                 })
             }
             Op::Inverse(d, a) => {
@@ -388,7 +421,7 @@ fn random_history(rng: &mut Rng, len: usize, max_word: usize) -> Vec<Op> {
         let a = rng.below(SLOTS);
         let b = rng.below(SLOTS);
         let d = rng.below(SLOTS);
-        ops.push(match rng.below(14) {
+        ops.push(match rng.below(15) {
             0 => { let w = random_word(rng, gens, 8); Op::New(d, w) }
             1 | 2 => Op::Mul(d, a, b, rng.below(4) as u8),
             3 => { let g = rng.range(-gens, gens); Op::MulGen(d, a, g, rng.below(2) as u8) }
@@ -399,7 +432,8 @@ fn random_history(rng: &mut Rng, len: usize, max_word: usize) -> Vec<Op> {
             9 | 10 => Op::Rotated(d, a, rng.range(-9, 9)),
             11 => Op::Compare(a, b),
             12 => Op::RelRep(a),
-            _ => Op::RelPerms(a),
+            13 => Op::RelPerms(a),
+            _ => Op::NewLazy(d, a, b),
         });
     }
     ops
